@@ -27,7 +27,7 @@ def graphIsomorphism (G1 G2 : SimpleG) : Formula :=
             forceFunctional 1 G1.n G2.n ++ forceInjective 1 G1.n G2.n ++ isoEdgeCons G1 G2 }
 
 /-- `GraphIsomorphism(G1, G2, nontrivial)`: the documented option "forbid identical mapping" is accepted and
-never read (defect D30) — the formula is the same for both values -/
+never read (defect D36) — the formula is the same for both values -/
 def graphIsomorphismOpt (G1 G2 : SimpleG) (_nontrivial : Bool) : Formula := graphIsomorphism G1 G2
 
 /-- `GraphAutomorphism(G)`: the isomorphism formula of `G` with itself plus one clause
